@@ -60,6 +60,9 @@ CORPUS = [
     ("static", "let A: bool = 60 * 24 <= 2000;\nlet B = 3 * 4 > 2 * 5;\nlet C = 2 * 3 == 3 * 2;\nlet D = 2 * 8 != 4 * 4;\nlet E = 6 * 7 + 2 * 1;\nlet F = 5 * 2 - 3 * 3;\n"
                "let G = (2 * 2) * (3 * 3);\nlet H = 9 * 3 >= 3 * 9;\nlet I = 1 * 0 < 0 * 1;\nlet J = true && 2 * 2 < 5;\nlet K = [2 * 3, 4 * 5];\nlet L = -(2 * 6);\n"
                "fn main() { println(A, B, C, D, E, F, G, H, I, J, K, L); }"),
+    # loop bodies that END in an expression (no semicolon): the value is dropped, its effects are not
+    ("trailing", "fn main() { let i = 0; while i < 3 { i += 1; println(i) } println(\"done\"); let s = 0; let j = 0; while j < 5 { j += 1; let k = 0; while k < j { k += 1; if k % 2 == 0 { s += k; } else { s += 1; } } } println(s); "
+                 "let n = 0; loop { n += 1; if n > 2 { break; } else { println(\"n\", n) } } for q in 0..3 { println(\"q\", q) } let m = 3; while m > 0 { m -= 1; match m { 1 => println(\"one\"), _ => println(\"other\") } } }"),
     # integral float literals in every directly rewritten position, values whose quotient by 42 / 69 / 4711 is not exact
     ("floatlit", "let GF = 27.0;\nfn ret() -> float { return 23.0; } fn tail() -> float { 19.0 } fn main() { let w: float = 27.0; let h = 183.0; let d = 11.0; let a = 22.0; "
                  "println(w, h, d, a, GF, ret(), tail(), w == 27.0, w as int, 13.0 < 14.0, { 53.0 }); 31.0; let m = if h > 100.0 { 37.0 } else { 41.0 }; println(m); }"),
